@@ -252,6 +252,66 @@ def run(ctx: Ctx) -> None:
     ok = "AutoSpecifier" in norm(tr) or "_auto_return_typename" in norm(tr)
     ctx.ob("R2.7", "parser:CxxParser._parse_trailing_return_type|only replaces a plain `auto`", ok and "raise CxxParseError" in norm(tr), msg="a trailing return type is accepted for a declared return type other than plain auto", node=tr, mod=mod, nontrivial=False)
 
+    # ---------------------------------------------------------------- R2.8
+    # A '(' after the type either starts a parameter list or groups a declarator.  The test
+    # that tells them apart looks at the token after the '(': it must admit every declarator
+    # prefix operator this function itself turns into a node (sibling consistency inside one
+    # function: '*' -> Pointer, '&' -> Reference, '&&' -> MoveReference).
+    ctx.rule("R2.8", "the grouping-parenthesis test admits every declarator prefix operator the function handles", minimum=1)
+    fname = "_parse_cv_ptr_or_fn"
+    cfg = pm.cfg(fname)
+    rd8 = reaching_defs(cfg)
+    kw = set(ctx.repo.folder("lexer", "PlyLexer").get("keywords")) if ctx.repo.folder("lexer", "PlyLexer").has("keywords") else set()
+    ops: Set[str] = set()
+    for n in cfg.nodes:
+        if not any(isinstance(c.func, ast.Name) and c.func.id in ("Pointer", "Reference", "MoveReference") for c in n.calls()):
+            continue
+        for d, lab in cfg.control_deps(n):
+            for x in ast.walk(d.cond):
+                if isinstance(x, ast.Name):
+                    for di in rd8.get(d.id, {}).get(x.id, ()):
+                        dn = cfg.nodes[di]
+                        for c, r in pm.node_calls(fname, dn):
+                            if r is not None and r[0] == "lex" and r[1] in ("token_if", "token_peek_if"):
+                                ops |= {a.value for a in c.args if isinstance(a, ast.Constant) and isinstance(a.value, str) and a.value not in kw and a.value != "("}
+    peeks = []
+    for n in cfg.nodes:
+        if n.kind == "test" and n.cond is not None and isinstance(n.cond, ast.UnaryOp) and isinstance(n.cond.op, ast.Not):
+            for c in ast.walk(n.cond):
+                if isinstance(c, ast.Call) and pm.resolve(fname, c) == ("lex", "token_peek_if"):
+                    # its true branch puts the '(' back
+                    if any(rr == ("lex", "return_token") for s_, lab in n.succ if lab == "T" for _, rr in pm.node_calls(fname, s_)):
+                        peeks.append((n, {a.value for a in c.args if isinstance(a, ast.Constant)}))
+    if not peeks or not ops:
+        raise AnalysisError("anchor vanished: the grouping-parenthesis peek test of _parse_cv_ptr_or_fn")
+    for n, admitted in peeks:
+        missing = sorted(ops - admitted)
+        ctx.ob("R2.8", f"parser:CxxParser.{fname}|grouping test admits {sorted(ops)}", not missing,
+               msg=f"the test `{short(n.cond, 60)}` that recognises a grouping parenthesis does not admit {missing}, although the function builds a node for it: a grouped declarator starting with {missing} (e.g. 'int (&&x)[3]') is rejected or read as a parameter list",
+               node=n.cond, mod=mod)
+
+    # ---------------------------------------------------------------- R2.9
+    # Parentheses after a parameter's type are dropped ("name can be surrounded by parens") by
+    # re-queuing the group's inner tokens.  That is only the identity on the type when the group
+    # holds a name/declarator; an empty or type-list group is a function declarator ('int ()',
+    # 'int (char)') and dropping it silently changes the parameter's type.
+    ctx.rule("R2.9", "parameter: parentheses after the type are dropped only under a test of what they enclose", minimum=1)
+    fname = "_parse_parameter"
+    cfg = pm.cfg(fname)
+    strips = []
+    for n in cfg.nodes:
+        for c, r in pm.node_calls(fname, n):
+            if r == ("lex", "return_tokens") and c.args and isinstance(c.args[0], ast.Subscript) and norm(c.args[0].slice) == "1:-1" and isinstance(c.args[0].value, ast.Name):
+                strips.append((n, c, c.args[0].value.id))
+    if not strips:
+        raise AnalysisError("anchor vanished: the parenthesised-name handling of _parse_parameter")
+    for n, c, var in strips:
+        deps = cfg.control_deps(n)
+        tested = any(var in {x.id for x in ast.walk(d.cond) if isinstance(x, ast.Name)} or any(isinstance(x, ast.Call) and (pm.resolve(fname, x) or ("", ""))[1].startswith("token_peek") for x in ast.walk(d.cond)) for d, lab in deps)
+        ctx.ob("R2.9", f"parser:CxxParser.{fname}|`{short(c, 50)}`", tested,
+               msg=f"`{short(c, 60)}` drops the parentheses that follow a parameter's type whatever they enclose: for 'void f(int ());' the parameter is reported as plain 'int' (a function declarator silently lost), and 'void f(int (char));' is a parse error",
+               node=c, mod=mod)
+
     ctors = {c for c, _ in types.classes()}
     for fname in pm.methods:
         for loop, v, c, ok in loops.sticky_locals(pm, fname, ctors):
